@@ -339,13 +339,17 @@ def shards(tier, seed):
     for o in "+-*/":
         sh(f"bin-{NM[o]}", "bin", _combos(2, ALL), [[o]])
     sh("bin-real-param", "bin", [["F0", "R"], ["R", "F0"], ["F1", "R"]], [[o] for o in "+-*/"])
-    sh("bin-symbolic-fluent-bounds", "bin", _combos(2, ["F0", "F1", "P0", "C", "Cd"]), [[o] for o in "+-*/"], sym_fluent_bounds=True)
+    sh("bin-symbolic-fluent-bounds", "bin", _combos(2, ["F0", "F1", "P0", "Cd"] + ([] if quick else ["C"])), [[o] for o in "+-*/"], sym_fluent_bounds=True)
     if quick:
-        Q3 = _combos(3, ["F0", "P0", "C", "Cd"]) + [["F0", "F1", "P0"], ["F0", "P0", "F1"], ["P0", "F0", "F1"], ["F0", "F1", "Cd"], ["F1", "F0", "C"]]
+        # one fluent in every position next to parameters / concrete constants; two fluent occurrences; a symbolic constant
+        one = [list(c) for c in _combos(3, ["F0", "P0", "Cd"]) if c.count("F0") == 1]
+        Q3 = one + [["F0", "F0", "P0"], ["F0", "P0", "F0"], ["P0", "F0", "F0"], ["F0", "F1", "P0"], ["F0", "P0", "F1"], ["P0", "F0", "F1"],
+                    ["F0", "C", "P0"], ["C", "F0", "P0"], ["P0", "C", "F0"]]
         for shape in ("left", "right"):
             for top in "+-*/":
                 sh(f"{shape}-top-{NM[top]}", shape, Q3, [p for p in PAIRS if p[0] == top])
-        sh("nary3", "nary3", Q3 + [["F0", "S", "P0"], ["S", "F0", "F1"]], [["+"], ["*"]])
+        sh("nary3-plus", "nary3", Q3 + [["F0", "S", "P0"], ["S", "F0", "F1"]], [["+"]])
+        sh("nary3-times", "nary3", Q3 + [["F0", "S", "P0"], ["S", "F0", "F1"]], [["*"]])
     else:
         for shape in ("left", "right"):
             for p in PAIRS:
